@@ -166,6 +166,7 @@ def run(rep, ctx):
     packing_rule(rep, F)
     defvar_rule(rep, F)
     bound_record_rule(rep, F, FW)
+    item_index_rule(rep, F, FW)
     return rep
 
 
@@ -1001,3 +1002,126 @@ def bound_record_rule(rep, F, FW):
                  "%s: record `%s` with %s is read back as (%s, %s)" % (cname, fm.strip(), vals, want[0], want[1]),
                  "%s bounds (L, U) = (%s, %s) are written as `%s` with values %s, which ReadBounds decodes as %s" % (
                      cname, want[0], want[1], fm.strip(), vals, got if got else "an unknown / malformed record"))
+
+
+# ---- T8: item record indexes ------------------------------------------------------------------
+def item_index_rule(rep, F, FW):
+    """The index each C/L/O/J/G record carries, the item the feeder is asked for, and the loop ranges."""
+    t8 = rep.rule("C03.T8", "TABLE",
+                  "item records: C<i>, L<i - num_algebraic_cons>, O<i>, J<i>, G<i> carry the index of the item whose "
+                  "expression / linear part the feeder is asked for; the loops cover num_algebraic_cons, num_logical_cons, "
+                  "num_objs items; k<num_vars + num_rand_vars - 1>", floor=12)
+
+    def fn(name):
+        fs = [f for f in FW.funcs if f.qn == NLW + "::" + name and not f.is_dependent()]
+        if not fs:
+            raise AnalysisBroken("C03.T8: %s not found" % name)
+        return fs[0]
+
+    def atom(e):
+        t = render(e).replace(" ", "").replace("this->", "")
+        for suf in ("num_algebraic_cons", "num_logical_cons", "num_objs", "num_vars", "num_rand_vars"):
+            if t.endswith("." + suf) or t.endswith(">" + suf) or t == suf:
+                return suf
+        return t
+
+    def aff(e):
+        e = strip(e)
+        if "cv" in e and e["k"] != "DeclRefExpr":
+            try:
+                v = float(e["cv"])
+                return {"1": v} if v else {}
+            except ValueError:
+                pass
+        if e["k"] == "BinaryOperator" and e.get("op") in ("+", "-"):
+            x, y = aff(kids(e)[0]), aff(kids(e)[1])
+            out = dict(x)
+            for t, v in y.items():
+                out[t] = out.get(t, 0.0) + (v if e["op"] == "+" else -v)
+            return {t: v for t, v in out.items() if v}
+        if e["k"] == "UnaryOperator" and e.get("op") == "-":
+            return {t: -v for t, v in aff(kids(e)[0]).items()}
+        return {atom(e): 1.0}
+
+    def aprs(f):
+        out = []
+        for c in f.walk():
+            if c["k"] in ("CXXMemberCallExpr", "CallExpr") and (c.get("callee") or "").split("::")[-1] == "apr":
+                a = call_args(c)
+                lits = lit_of(FW, a[1], f) if len(a) > 1 else None
+                out.append((c, lits, a[2:]))
+        return out
+
+    def loop_of(f, node):
+        return f.enclosing(node, ("ForStmt",))
+
+    def bound(loop):
+        c = loop.get("c", [None] * 5)[2]
+        c = strip(c) if c is not None else None
+        if c is None or c["k"] != "BinaryOperator" or c.get("op") != "<":
+            return None
+        return (render(kids(c)[0]).strip(), aff(kids(c)[1]))
+
+    # --- C / L / O ---------------------------------------------------------------------------
+    f = fn("WriteConObjExpressions")
+    want = {"C": ({"i": 1.0}, {"num_algebraic_cons": 1.0}, "FeedConExpression", {"i": 1.0, "1": 1.0}),
+            "L": ({"i": 1.0, "num_algebraic_cons": -1.0}, {"num_algebraic_cons": 1.0, "num_logical_cons": 1.0}, "FeedConExpression", {"i": 1.0, "1": 1.0}),
+            "O": ({"i": 1.0}, {"num_objs": 1.0}, "FeedObjExpression", {"i": -1.0, "1": -1.0})}
+    seen = {}
+    for c, lits, args in aprs(f):
+        if not args:
+            continue
+        ch = cv(args[0])
+        letter = chr(ch) if ch else None
+        if letter in want:
+            seen[letter] = (c, args)
+    for letter, (ix, ub, feeder, dv) in want.items():
+        if letter not in seen:
+            t8.fail("record|%s" % letter, short_loc(f.loc), "no %s record is written" % letter)
+            continue
+        c, args = seen[letter]
+        lp = loop_of(f, c)
+        got_ix = aff(args[1])
+        t8.check(got_ix == ix, "record|%s|index" % letter, short_loc(c.get("l")),
+                 "%s records carry index %s" % (letter, ix), "%s records carry index `%s` (= %s), expected %s" % (letter, render(args[1]), got_ix, ix))
+        b = bound(lp) if lp is not None else None
+        t8.check(b is not None and b[0] == "i" and b[1] == ub, "record|%s|range" % letter, short_loc(c.get("l")),
+                 "the %s loop runs while i < %s" % (letter, ub), "the %s loop bound is %s" % (letter, b))
+        fc = [x for x in walk(lp) if x["k"] == "CXXMemberCallExpr" and (x.get("callee") or "").split("::")[-1] == feeder] if lp is not None else []
+        t8.check(len(fc) == 1 and aff(call_args(fc[0])[0]) == {"i": 1.0}, "record|%s|feeder-item" % letter, short_loc(c.get("l")),
+                 "%s is asked for item i" % feeder, "%s is asked for item `%s`" % (feeder, render(call_args(fc[0])[0]) if fc else "?"))
+        wd = [x for x in walk(lp) if x["k"] == "CXXMemberCallExpr" and (x.get("callee") or "").split("::")[-1] == "WriteDefinedVariables"] if lp is not None else []
+        t8.check(len(wd) == 1 and aff(call_args(wd[0])[0]) == dv, "record|%s|defined-vars" % letter, short_loc(c.get("l")),
+                 "defined variables of the item are written first, selector %s" % dv,
+                 "WriteDefinedVariables selector is `%s`" % (render(call_args(wd[0])[0]) if wd else "?"))
+    # the L loop continues the C loop (no re-initialisation), the O loop restarts at 0
+    loops = [n for n in f.walk() if n["k"] == "ForStmt"]
+    inits = [render(l.get("c", [None])[0]).replace(" ", "") if l.get("c", [None])[0] is not None else "" for l in loops]
+    t8.check(len(loops) == 3 and inits[1] == "" and inits[2] in ("i=0", "inti=0"), "loops|continuation", short_loc(f.loc),
+             "the logical-constraint loop continues where the algebraic one stopped, the objective loop restarts at 0", "loop initialisers %s" % inits)
+    # --- J / G --------------------------------------------------------------------------------
+    for name, letter, ub, feeder in (("WriteLinearConExpr", "J", {"num_algebraic_cons": 1.0}, "FeedLinearConExpr"),
+                                     ("WriteObjGradients", "G", {"num_objs": 1.0}, "FeedObjGradient")):
+        g = fn(name)
+        lam = [x for x in FW.funcs if x.qn == NLW + "::" + name + "::(lambda)::operator()" and not x.is_dependent()]
+        recs = [(c, lits, args) for h in [g] + lam[:1] for c, lits, args in aprs(h)
+                if lits and all(s_.startswith(letter + "%d %d") for s_ in lits)]
+        lp = [n for n in g.walk() if n["k"] == "ForStmt"]
+        okr = len(recs) == 1 and len(recs[0][2]) >= 2 and aff(recs[0][2][0]) == {"i": 1.0} and render(recs[0][2][1]).strip() == "nnz"
+        t8.check(okr, "record|%s|index" % letter, short_loc(g.loc), "%s records carry the item index and the number of entries" % letter,
+                 "%s record arguments are %s" % (letter, [render(x) for x in recs[0][2]] if recs else "missing"))
+        b = bound(lp[0]) if len(lp) == 1 else None
+        fc = [x for x in g.walk() if x["k"] == "CXXMemberCallExpr" and (x.get("callee") or "").split("::")[-1] == feeder]
+        t8.check(b is not None and b[0] == "i" and b[1] == ub and len(fc) == 1 and aff(call_args(fc[0])[0]) == {"i": 1.0},
+                 "record|%s|range-and-item" % letter, short_loc(g.loc), "one %s record per item i < %s, %s(i)" % (letter, ub, feeder),
+                 "loop bound %s, feeder argument `%s`" % (b, render(call_args(fc[0])[0]) if fc else "?"))
+    # --- k / K ----------------------------------------------------------------------------------
+    g = fn("WriteColumnSizes")
+    n_k = 0
+    for c, lits, args in aprs(g):
+        if lits and all(s_[:1] in ("k", "K") for s_ in lits) and args:
+            n_k += 1
+            t8.check(aff(args[0]) == {"num_vars": 1.0, "num_rand_vars": 1.0, "1": -1.0}, "record|k|count|%d" % n_k, short_loc(c.get("l")),
+                     "the column-size record announces num_vars + num_rand_vars - 1 entries", "it announces `%s`" % render(args[0]))
+    if n_k < 2:
+        t8.fail("record|k|count", short_loc(g.loc), "column-size headers not found")
